@@ -41,6 +41,12 @@ def kind_of(self_ty):
         return ("refcell", None)
     if t.startswith("[") or t.startswith("std::vec::Vec<"):
         return ("iter", None)
+    # further std collections (not implemented today; a maintainer may add them): same canonical whole-collection loop. Trusted: their `iter()`
+    # yields every owned element exactly once and runs no user code (no Ord/Hash call while iterating)
+    if t.startswith(("std::collections::VecDeque<", "std::collections::LinkedList<", "std::collections::BTreeSet<", "std::collections::BinaryHeap<", "std::collections::HashSet<")):
+        return ("iter", None)
+    if t.startswith(("std::collections::BTreeMap<", "std::collections::HashMap<")):
+        return ("iter_pairs", None)
     if t.startswith("cc::Cc<"):
         return ("cc", None)
     if t.startswith("cc::CcBox<"):
@@ -103,7 +109,7 @@ def check(R, F, P, cfg):
         if kind[0:1] == ("tuple",)[0:1] and kind == "tuple":
             if len(paths) != 1:
                 problems.append("tuple impl has %d paths (must be 1: every position unconditionally)" % len(paths))
-        if kind == "iter":
+        if kind in ("iter", "iter_pairs"):
             problems += loop_shape(S, method)
         if kind == "empty":
             calls = [b["term"] for b in f.blocks if b["term"]["k"] in ("call", "drop")]
@@ -201,6 +207,14 @@ def expected(kind, n, method, X, recv, S):
         if len(items) == len(recv) == len(somes):
             return recv
         return ["<one call per yielded item>"] * len(somes)
+    if kind == "iter_pairs":
+        # maps yield (&K, &V): per yielded item exactly one call on the key and one on the value
+        somes = [1 for a, t in lits if a[0] == "discr" and "next(" in fmt(a[1]) and t in (("is", 1), ("not", 0))]
+        keys = [r for r in recv if re.match(r"^\*?\(?\(next\(.*\)(@[^ ]*)? as Some\)\.0\)?\.0$", r)]
+        vals = [r for r in recv if re.match(r"^\*?\(?\(next\(.*\)(@[^ ]*)? as Some\)\.0\)?\.1$", r)]
+        if len(keys) == len(vals) == len(somes) and len(keys) + len(vals) == len(recv):
+            return recv
+        return ["<one call on the key and one on the value per yielded item>"] * len(somes)
     if kind == "cc":
         if method == "trace":
             return ["*self.inner"]
